@@ -6,6 +6,7 @@ CONSTANTS
   MaxList = 2
   MaxTxns = 4
   DataSet = {"ok", "temp", "perm"}
+  DropSet = {0, 1}
   Devs = {}
   Gen = FALSE
 VIEW View
